@@ -513,6 +513,8 @@ class IntervalKind(AbsInt):
         return TOP
 
     def iter_elem(self, val, node, fr):
+        if isinstance(val, Tup) and val.kind == 'zip':
+            return Tup([self.iter_elem(e, node, fr) for e in val.elems])      # one row of each zipped column
         return 'N' if val == 'N' else (val if isinstance(val, IV) else TOP)
 
     def external_call(self, name, node, fr):
